@@ -53,6 +53,34 @@ static int add_integer(yaml_document_t *document, int value)
 }
 
 /*
+ * format_scalar: format a number into a dynamically allocated string
+ *   @format: printf-style format
+ *
+ * The length depends on the precision the user set, so the buffer is
+ * sized from the formatted length.  Caller must free the result.
+ */
+static char *format_scalar(const char *format, ...)
+{
+    va_list ap;
+    int length;
+    char *buf;
+
+    va_start(ap, format);
+    length = vsnprintf(NULL, 0, format, ap);
+    va_end(ap);
+    if (length < 0) {
+	return NULL;
+    }
+    if ((buf = malloc((size_t)length + 1)) == NULL) {
+	return NULL;
+    }
+    va_start(ap, format);
+    (void)vsnprintf(buf, (size_t)length + 1, format, ap);
+    va_end(ap);
+    return buf;
+}
+
+/*
  * add_double: add double scalar to the yaml_document_t
  *   @document: yaml document
  *   @value: real value
@@ -60,14 +88,17 @@ static int add_integer(yaml_document_t *document, int value)
  */
 static int add_double(yaml_document_t *document, double value, int precision)
 {
-    char buf[3 * sizeof(double) + 10];
+    char *buf;
     int tag;
 
     assert(precision >= 1);
-    (void)sprintf(buf, "%.*e", precision - 1, value);
-    if ((tag = yaml_document_add_scalar(document, NULL,
-		    (yaml_char_t *)buf, strlen(buf),
-		    YAML_ANY_SCALAR_STYLE)) == 0) {
+    if ((buf = format_scalar("%.*e", precision - 1, value)) == NULL) {
+	return -1;
+    }
+    tag = yaml_document_add_scalar(document, NULL,
+	    (yaml_char_t *)buf, strlen(buf), YAML_ANY_SCALAR_STYLE);
+    free((void *)buf);
+    if (tag == 0) {
 	return -1;
     }
     return tag;
@@ -84,20 +115,24 @@ static int add_complex(yaml_document_t *document, double complex value,
 {
     double real = creal(value);
     double imag = cimag(value);
-    char buf[3 * sizeof(double complex) + 20];
+    char *buf;
     int tag;
 
     assert(precision >= 1);
     if (precision == VNACAL_MAX_PRECISION) {
-	(void)sprintf(buf, "%+a %+aj", real, imag);
+	buf = format_scalar("%+a %+aj", real, imag);
     } else {
-	(void)sprintf(buf, "%+.*e %+.*ej",
+	buf = format_scalar("%+.*e %+.*ej",
 		precision - 1, real,
 		precision - 1, imag);
     }
-    if ((tag = yaml_document_add_scalar(document, NULL,
-		    (yaml_char_t *)buf, strlen(buf),
-		    YAML_ANY_SCALAR_STYLE)) == 0) {
+    if (buf == NULL) {
+	return -1;
+    }
+    tag = yaml_document_add_scalar(document, NULL,
+	    (yaml_char_t *)buf, strlen(buf), YAML_ANY_SCALAR_STYLE);
+    free((void *)buf);
+    if (tag == 0) {
 	return -1;
     }
     return tag;
